@@ -115,6 +115,28 @@ pub fn with_poison(v: &[f64]) -> Vec<f64> {
     w
 }
 
+/// The iterator shapes of Ingest.tla
+#[derive(Clone, Copy, Debug, PartialEq, Eq)]
+pub enum Shape {
+    /// knows its length
+    Exact,
+    /// size_hint lower bound 0
+    Lazy,
+    /// not fused: would yield more after its first None
+    Resuming,
+}
+
+impl Shape {
+    pub fn parse(s: &str) -> Shape {
+        match s {
+            "exact" => Shape::Exact,
+            "lazy" => Shape::Lazy,
+            "resuming" => Shape::Resuming,
+            o => panic!("iterator shape {o}"),
+        }
+    }
+}
+
 pub trait MomT: Clone + Send + Sync + 'static {
     const NAME: &'static str;
     /// highest central moment the type reports
@@ -144,6 +166,27 @@ pub trait MomT: Clone + Send + Sync + 'static {
     /// the same through an iterator that is not fused (`Resuming`)
     fn collect_resuming(v: &[f64], by_ref: bool) -> Self;
     fn extend_resuming(&mut self, v: &[f64], by_ref: bool);
+    /// collect / extend through an iterator of the given shape (Ingest.tla), by value or by reference
+    fn collect_shaped(v: &[f64], by_ref: bool, shape: Shape) -> Self {
+        match (shape, by_ref) {
+            (Shape::Exact, false) => Self::collect_val(v),
+            (Shape::Exact, true) => Self::collect_ref(v),
+            (Shape::Lazy, false) => Self::collect_val_lazy(v),
+            (Shape::Lazy, true) => Self::collect_ref_lazy(v),
+            (Shape::Resuming, r) => Self::collect_resuming(v, r),
+        }
+    }
+    fn extend_shaped(&mut self, v: &[f64], by_ref: bool, shape: Shape) {
+        match (shape, by_ref) {
+            (Shape::Exact, false) => self.extend_val(v),
+            (Shape::Exact, true) => self.extend_ref(v),
+            (Shape::Lazy, false) => self.extend_val_lazy(v),
+            (Shape::Lazy, true) => self.extend_ref_lazy(v),
+            (Shape::Resuming, r) => self.extend_resuming(v, r),
+        }
+    }
+    fn collect_ref_lazy(v: &[f64]) -> Self;
+    fn extend_ref_lazy(&mut self, v: &[f64]);
     fn par_collect_val(v: &[f64]) -> Self;
     fn par_collect_ref(v: &[f64]) -> Self;
     /// parallel collect with explicit splitting limits (forces many small leaves)
@@ -197,6 +240,12 @@ macro_rules! common_impl {
         }
         fn extend_val_lazy(&mut self, v: &[f64]) {
             Extend::extend(self, v.iter().copied().filter(|x| !x.is_nan() || x.is_nan()))
+        }
+        fn collect_ref_lazy(v: &[f64]) -> Self {
+            v.iter().filter(|x| !x.is_nan() || x.is_nan()).collect()
+        }
+        fn extend_ref_lazy(&mut self, v: &[f64]) {
+            Extend::extend(self, v.iter().filter(|x| !x.is_nan() || x.is_nan()))
         }
         fn collect_resuming(v: &[f64], by_ref: bool) -> Self {
             let w = with_poison(v);
